@@ -873,7 +873,9 @@ GRIget_image_list(int32 file_id, gr_info_t *gr_ptr)
                                 case DFTAG_RI: /* Regular image data */
                                     new_image->img_tag = (uint16)img_tag;
                                     new_image->img_ref = (uint16)img_ref;
-                                    if (SPECIALTAG(new_image->img_tag) == TRUE) {
+                                    /* compressed data is accessed through the buffered driver */
+                                    if (GRIisspecial_type(file_id, new_image->img_tag, new_image->img_ref) ==
+                                        SPECIAL_COMP) {
                                         new_image->use_buf_drvr = 1;
                                     }
                                     break;
@@ -1081,7 +1083,9 @@ GRIget_image_list(int32 file_id, gr_info_t *gr_ptr)
                             case DFTAG_RI:                                 /* regular image data */
                                 new_image->img_tag = elt_tag;
                                 new_image->img_ref = elt_ref;
-                                if (SPECIALTAG(new_image->img_tag) == TRUE) {
+                                /* compressed data is accessed through the buffered driver */
+                                if (GRIisspecial_type(file_id, new_image->img_tag, new_image->img_ref) ==
+                                    SPECIAL_COMP) {
                                     new_image->use_buf_drvr = 1;
                                 } /* end if */
                                 break;
